@@ -48,7 +48,7 @@ fn canon(tcx: TyCtxt<'_>, did: DefId) -> String {
 }
 
 fn ty_str<'tcx>(ty: Ty<'tcx>) -> String {
-    ty::print::with_no_trimmed_paths!(format!("{}", ty))
+    ty::print::with_resolve_crate_name!(ty::print::with_no_trimmed_paths!(format!("{}", ty)))
 }
 
 /// Pretty, line-free name: canonical path with `{impl#N}` replaced by the self type / trait.
@@ -66,11 +66,15 @@ fn pretty(tcx: TyCtxt<'_>, did: DefId) -> String {
                 let st = ty_str(self_ty);
                 if of_trait {
                     let tr = tcx.impl_trait_ref(cur).instantiate_identity().skip_norm_wip();
-                    let trs = ty::print::with_no_trimmed_paths!(format!(
+                    let trs = ty::print::with_resolve_crate_name!(ty::print::with_no_trimmed_paths!(format!(
                         "{}",
                         tr.print_only_trait_path()
-                    ));
+                    )));
                     segs.push(format!("<{} as {}>", st, trs));
+                } else if let ty::Adt(def, _) = self_ty.kind() {
+                    segs.push(ty::print::with_resolve_crate_name!(ty::print::with_no_trimmed_paths!(
+                        tcx.def_path_str(def.did())
+                    )));
                 } else {
                     segs.push(format!("<{}>", st));
                 }
@@ -424,7 +428,7 @@ impl<'tcx> Cx<'tcx> {
                     if let ty::FnDef(cdid, cargs) = fty.kind() {
                         callee = canon(tcx, *cdid);
                         calleep = pretty(tcx, *cdid);
-                        gen = ty::print::with_no_trimmed_paths!(format!("{:?}", cargs));
+                        gen = ty::print::with_resolve_crate_name!(ty::print::with_no_trimmed_paths!(format!("{:?}", cargs)));
                         unsafe_callee = tcx.fn_sig(*cdid).skip_binder().safety().is_unsafe();
                         if let Ok(Some(inst)) = ty::Instance::try_resolve(tcx, env, *cdid, cargs) {
                             let rd = inst.def_id();
@@ -528,7 +532,7 @@ impl rustc_driver::Callbacks for Cb {
                 let sig = tcx.fn_sig(did).instantiate_identity().skip_norm_wip();
                 (
                     sig.safety().is_unsafe(),
-                    ty::print::with_no_trimmed_paths!(format!("{}", sig)),
+                    ty::print::with_resolve_crate_name!(ty::print::with_no_trimmed_paths!(format!("{}", sig))),
                 )
             } else {
                 (false, String::new())
@@ -688,7 +692,7 @@ impl rustc_driver::Callbacks for Cb {
                 let h = tcx.impl_trait_header(did);
                 let tr = h.trait_ref.instantiate_identity().skip_norm_wip();
                 (
-                    ty::print::with_no_trimmed_paths!(format!("{}", tr.print_only_trait_path())),
+                    ty::print::with_resolve_crate_name!(ty::print::with_no_trimmed_paths!(format!("{}", tr.print_only_trait_path()))),
                     h.safety.is_unsafe(),
                     matches!(h.polarity, ty::ImplPolarity::Negative),
                 )
